@@ -61,6 +61,7 @@ K_INITIAL = "initial-checkpoint-no-backup"
 K_CLEARS = "failed-recovery-clears-grid"
 K_ACCEPT = "torn-read-accepted:"            # + grid | CompleteStorage
 K_NOTRT = "torn-read-not-runtime-error:"    # + grid | CompleteStorage
+K_PARKED = "budget-exceeded-after-restart:parked-points"
 
 FAMILIES_QUICK = [("localp", 40, 1, 1)]
 FAMILIES_THOROUGH = [("localp", 40, 1, 1), ("localp", 30, 3, 2), ("localp2", 24, 2, 1), ("localp0", 20, 1, 3), ("wavelet", 16, 1, 1),
@@ -71,7 +72,7 @@ MK_FAMILIES = ["localp", "localp2", "localp0", "wavelet", "sequence", "global", 
 # ---------------------------------------------------------------------------------------------
 # child processes: always under a wall-clock timeout and a memory limit (a torn read may ask for 2^60 bytes)
 def _limits_plain():
-    resource.setrlimit(resource.RLIMIT_AS, (3 << 30, 3 << 30))
+    resource.setrlimit(resource.RLIMIT_AS, (768 << 20, 768 << 20))
     resource.setrlimit(resource.RLIMIT_CPU, (60, 60))
     resource.setrlimit(resource.RLIMIT_CORE, (0, 0))
 
@@ -81,7 +82,7 @@ def _limits_asan():
     resource.setrlimit(resource.RLIMIT_CORE, (0, 0))
 
 
-ASAN_ENV = "detect_leaks=0:max_allocation_size_mb=1024:hard_rss_limit_mb=3000:allocator_may_return_null=0:abort_on_error=0"
+ASAN_ENV = "detect_leaks=0:max_allocation_size_mb=64:hard_rss_limit_mb=1000:allocator_may_return_null=0:abort_on_error=0:symbolize=0:fast_unwind_on_malloc=1"
 
 
 def child(cmd, env=None, timeout=30, asan=False):
@@ -177,7 +178,7 @@ class ProcLog:
 
 
 def shape_of(op):
-    return (op["kind"], op["path"], op["n"], op["detail"])
+    return (op["kind"], os.path.basename(op["path"]), op["n"], op["detail"])
 
 
 # ---------------------------------------------------------------------------------------------
@@ -272,9 +273,11 @@ def readcheck(ctx, path):
 class Scenario:
     """a process (fresh, or restarted from given files) with its reference run and its kill cases"""
 
-    def __init__(self, ctx, name, cfg, start=None, prior_samples=(), max_phase=None):
+    def __init__(self, ctx, name, cfg, start=None, prior_samples=(), max_phase=None, prior_tables=()):
         self.ctx, self.name, self.cfg, self.start = ctx, name, cfg, start
         self.prior = list(prior_samples)     # samples held by the start state (tuples of hex strings)
+        self.prior_tables = list(prior_tables)   # complete checkpoints of earlier processes that may still be on disk
+        self.base = len(self.prior_tables)       # table index of this process's initial checkpoint
         self.max_phase = max_phase
         self.dir = os.path.join(ctx.wd, name)
         self.cases = []
@@ -285,7 +288,7 @@ class Scenario:
         self.ref_res = parse_result(r["result"])
         log = r["log"]
         self.ncalls = len(log.calls)
-        self.table = []
+        self.table = list(self.prior_tables)
         for k in range(self.ncalls + 1):
             p = os.path.join(r["dir"], "ref", "ck%d" % k)
             self.table.append(p)
@@ -309,6 +312,10 @@ class Scenario:
                 for tname in tears:
                     m = {"0": 0, "1": 1, "half": n // 2, "len-1": n - 1, "q1": n // 4, "q3": (3 * n) // 4, "16": 16, "len-9": n - 9}[tname]
                     if 0 <= m < n:
+                        pts.append((op["idx"], "tear:%d" % m))
+                if op["phase"] == 0 and self.start is None:
+                    # the very first checkpoint of a fresh run: nothing protects it, tear it densely
+                    for m in range(5, n, 8):
                         pts.append((op["idx"], "tear:%d" % m))
         # distinct
         seen, out = set(), []
@@ -367,7 +374,7 @@ def model_pass(ctx, runner, scenarios):
     """write the case file for the extracted model, run it, attach the parsed lines to the cases"""
     lines = []
     for sc in scenarios:
-        lines.append("table %s" % sc.name)
+        lines.append("table %s %d" % (sc.name, sc.base))
         for k, p in enumerate(sc.table):
             gl = sc.gridlens[k] if k < len(sc.gridlens) else -1
             lines.append("ref %s %d" % (p, gl))
@@ -502,7 +509,7 @@ def evaluate_case(sc, c, mres, variant):
         protected.update(log1.calls[i])
     # --- (A) two-file invariant, evaluated on the bytes
     have_lc = restarted_process or lc >= 0
-    base = max(lc, 0)
+    base = sc.base + max(lc, 0)             # table index of the last completed checkpoint
     surv = []
     for nm in ("cur", "old"):
         b = c[nm]
@@ -525,7 +532,7 @@ def evaluate_case(sc, c, mres, variant):
         return (generic, what)
     if not inv_ok:
         out.append(attribute("no-complete-file", "after the kill at operation %d (%s, phase %d) neither file holds checkpoint >= %d "
-                             "(files: %s)" % (k, when, phase, base, surv or "none complete")))
+                             "(files: %s)" % (k, when, phase, base - sc.base, [(n, j - sc.base) for n, j in surv] or "none complete")))
     # --- (B) the real reader on the two files
     for nm in ("cur", "old"):
         rc_ = c["rc_" + nm]
@@ -551,6 +558,7 @@ def evaluate_case(sc, c, mres, variant):
             elif rc_["status"] != "runtime_error":
                 out.append((K_NOTRT + section, "reading the torn file %s (%d bytes, kill %d %s) does not throw std::runtime_error: %s %s"
                             % (nm, len(b), k, when, rc_["status"], rc_.get("text", ""))))
+    accepted_torn = [key for key, _ in out if key.startswith(K_ACCEPT)]
     # --- (C) the restart
     rs = c["restart"]
     log2 = c["restart_log"]
@@ -581,17 +589,26 @@ def evaluate_case(sc, c, mres, variant):
         out.append(("corrupt-grid-continued", "the restarted process worked with a grid whose loaded values differ from the model: %s" % (bad_g[0],)))
     if not (rs["e_values"] <= TOL and rs["e_eval"] <= TOL):
         out.append(("final-grid-wrong", "final grid does not reproduce the model at its loaded points: values %g evaluate %g" % (rs["e_values"], rs["e_eval"])))
-    if rs["numloaded"] > budget:
-        out.append(("budget-exceeded", "final grid has %d points, budget %d" % (rs["numloaded"], budget)))
-    first_loaded = log2.gstates[0][1] if log2.gstates else rs["numloaded"]
     redo = [x for call in log2.calls for x in call]
-    if first_loaded + len(redo) > budget:
-        out.append(("budget-exceeded", "recovered %d points and computed %d more, budget %d" % (first_loaded, len(redo), budget)))
+    # samples that the recovered checkpoint holds (computed before it) and how many of them the grid does not count as loaded:
+    # constructCommon line 168 initialises its counter with getNumLoaded() + getNumStored() only
+    held, parked = None, 0
+    if mres is not None and "recover_coded" in mres and mres["recover_coded"].split(":")[1].isdigit():
+        j = int(mres["recover_coded"].split(":")[1])
+        held = len(sc.prior) + sum(len(call) for call in log1.calls[:max(j - sc.base, 0)])
+        if j < len(sc.numtotal) and sc.numtotal[j] is not None:
+            parked = max(held - sc.numtotal[j], 0)
+    over = max(rs["numloaded"] - budget, (held + len(redo) - budget) if held is not None else 0)
+    if over > 0:
+        out.append((K_PARKED if over <= parked else "budget-exceeded",
+                    "budget %d exceeded by %d: the recovered checkpoint holds %s computed samples (%d of them parked inside the grid, not "
+                    "counted by getNumLoaded()+getNumStored()), the restart computed %d more, the final grid has %d points"
+                    % (budget, over, held, parked, len(redo), rs["numloaded"])))
     # --- (D) recomputation bound
     lost = [x for x in redo if x in protected]
     if lost:
         out.append(attribute("lost-completed-work", "the restart recomputed %d sample(s) that checkpoint %d (completed before the kill at operation "
-                             "%d %s) already held, e.g. %s" % (len(lost), base, k, when, " ".join(lost[0]))))
+                             "%d %s) already held, e.g. %s" % (len(lost), base - sc.base, k, when, " ".join(lost[0]))))
     # H-NOREDO: the restart must not recompute a sample that its own recovered state holds (duplicates inside one process)
     if len(set(redo)) != len(redo):
         out.append(("duplicate-sample", "the restarted process computed the same sample twice"))
@@ -604,8 +621,10 @@ def evaluate_case(sc, c, mres, variant):
             # the recovered grid also receives the stored samples before the first call
             exp_total = sc.numtotal[int(st)] if int(st) < len(sc.numtotal) else None
             if exp_total is not None and log2.gstates and log2.gstates[0][1] not in (exp_loaded, exp_total):
-                out.append(("recovery-differs-from-model", "model recovery predicts checkpoint %s (%s loaded) but the restart began with %d loaded points"
-                            % (st, exp_total, log2.gstates[0][1])))
+                # under H-TORN the model's recovery is what must happen; a torn file that the real reader accepted explains a difference
+                out.append((accepted_torn[0] if accepted_torn else "recovery-differs-from-model",
+                            "model recovery (which assumes H-TORN) predicts checkpoint %d (%s loaded) but the restart began with %d loaded points"
+                            % (int(st) - sc.base, exp_total, log2.gstates[0][1])))
     return out
 
 
@@ -629,6 +648,22 @@ def run(res, tier, seed, only=None):
     # seed-dependent variation of the quick configuration (budget / batch), the witness configuration always first
     if tier == "quick" and not only and seed != 1:
         fams.append((r.choice(["localp", "sequence", "localp2", "global"]), r.choice([10, 12, 14]), r.choice([1, 2, 3]), r.choice([1, 2])))
+
+    # corpus: witness configurations are always part of the run, witness files are always part of the H-TORN sample
+    cdir = os.path.join(vlib.ROOT, "corpus", PID)
+    corpus_torn = []
+    if os.path.isdir(cdir) and not only:
+        for fn in sorted(os.listdir(cdir)):
+            if not fn.endswith(".json"):
+                continue
+            try:
+                w = json.load(open(os.path.join(cdir, fn)))
+            except ValueError:
+                continue
+            if w.get("kind") == "kill" and tuple(w["cfg"]) not in fams:
+                fams.insert(0, tuple(w["cfg"]))
+            elif w.get("kind") == "torn":
+                corpus_torn.append((os.path.join(cdir, w["file"]), int(w["gridlen"])))
 
     scenarios = []
     for ci, cfg in enumerate(fams):
@@ -655,7 +690,7 @@ def run(res, tier, seed, only=None):
                 if os.path.exists(a):
                     shutil.copyfile(a, b)
             sc2 = Scenario(ctx, sc.name + "-restart%d" % m, sc.cfg, start=st, prior_samples=prior,
-                           max_phase=(3 if tier == "quick" else 6))
+                           max_phase=(3 if tier == "quick" else 6), prior_tables=[sc.table[m - 1]] if m >= 1 else [])
             sc2.reference()
             sc2.parent_m = m
             second.append(sc2)
@@ -727,10 +762,21 @@ def run(res, tier, seed, only=None):
             res.violation("reference-run-failed", "unkilled run %s failed: rc=%s %s" % (sc.name, sc.ref["rc"], sc.ref["result"]), rep)
             nviol += 1
             continue
-        if not (rr["e_values"] <= TOL and rr["e_eval"] <= TOL) or rr["numloaded"] > sc.cfg[1]:
-            res.violation("reference-run-wrong", "unkilled run %s: errors %g %g, %d points (budget %d)"
-                          % (sc.name, rr["e_values"], rr["e_eval"], rr["numloaded"], sc.cfg[1]), rep)
+        ncomputed = len(sc.prior) + sum(len(call) for call in sc.ref["log"].calls)
+        over = max(rr["numloaded"], ncomputed) - sc.cfg[1]
+        if not (rr["e_values"] <= TOL and rr["e_eval"] <= TOL):
+            res.violation("reference-run-wrong", "unkilled run %s: errors %g %g" % (sc.name, rr["e_values"], rr["e_eval"]), rep)
             nviol += 1
+        if over > 0:
+            parked = 0
+            if sc.start is not None and sc.base < len(sc.numtotal) and sc.numtotal[sc.base] is not None:
+                parked = max(len(sc.prior) - sc.numtotal[sc.base], 0)
+            key = K_PARKED if over <= parked else "budget-exceeded"
+            rep2 = dict(rep, script=["surrdrv run %s %d %d %d <ck>, killed before the first file operation of checkpoint %d" % (tuple(sc.cfg) + (getattr(sc, "parent_m", 0) + 1,)),
+                                     "surrdrv run (same arguments)"])
+            if res.violation(key, "unkilled restart %s: %d samples computed in total, final grid %d points, budget %d (the recovered checkpoint held %d samples, "
+                             "%d of them parked inside the grid)" % (sc.name, ncomputed, rr["numloaded"], sc.cfg[1], len(sc.prior), parked), rep2):
+                nviol += 1
         for k, rc_ in enumerate(sc.ref_read):
             if rc_["status"] != "ok" or rc_["kv"].get("roundtrip") != "1":
                 res.violation("roundtrip", "complete checkpoint %d of %s is not read back / rewritten identically: %s" % (k, sc.name, rc_.get("text")), rep)
@@ -789,6 +835,7 @@ def run(res, tier, seed, only=None):
         k = sc.ncalls // 2
         if sc.gridlens[k] >= 0:
             torn_files.append((sc.table[k], sc.gridlens[k]))
+    torn_files = [f for f in corpus_torn if os.path.exists(f[0])] + torn_files
     mkdir = os.path.join(ctx.wd, "mk")
     os.makedirs(mkdir, exist_ok=True)
     mk_list = []
@@ -808,7 +855,9 @@ def run(res, tier, seed, only=None):
             res.violation("roundtrip", "crafted checkpoint %s is not read back identically: %s" % (os.path.basename(p), rc_.get("text")),
                           {"kind": "impl-counterexample", "script": ["surrdrv mkckpt %s %d %d" % (fam, nl, ns), "surrdrv readcheck"]})
             nviol += 1
+    t1 = time.time()
     tcounts, toff = torn_check(ctx, torn_files)
+    t_torn = time.time() - t1
     tkeys = {}
     for o in toff:
         key = (K_ACCEPT if o["outcome"] == "accepted" else K_NOTRT) + o["section"]
@@ -879,7 +928,7 @@ def run(res, tier, seed, only=None):
         "direct_property_failures_by_key": stats["by_key"],
         "hypotheses_checked": {"H-TORN": dict(tcounts, sample_files=[os.path.basename(f) for f, _ in torn_files],
                                               offenders_by_key={k: len(v) for k, v in tkeys.items()})},
-        "wall_kill_phase_s": round(t_kill, 1),
+        "wall_kill_phase_s": round(t_kill, 1), "wall_torn_phase_s": round(t_torn, 1),
     })
     res.assumptions = ASSUMPTIONS
     return stats
